@@ -291,20 +291,12 @@ Section GFq.
                    else if q <=? tr then obind (f2i UTT tr) (fun u => Some (u mod q)) else Some tr in
         obind otr (fun tr => if x <? 0 then (if tr =? 0 then Some 0 else gf_idx (q - tr)) else gf_idx tr)
     | SI T =>
-        if bits T <? 64 then
-          if sg T || (bits T <? 32) then       (* init(int32_t): also reached by the narrower types through promotion *)
-            if x <? 0 then
-              let tr := cast i32 (- x) in
-              let tr := if cast i32 q <=? tr then cast i32 (Z.rem (wrapu 64 tr) q) else tr in
-              if tr =? 0 then Some 0 else gf_idx (wrapu 64 (q - wrapu 64 tr))
-            else
-              let tr := if cast i32 q <=? x then cast i32 (Z.rem (wrapu 32 x) q) else x in gf_idx (wrapu 64 tr)
-          else                                 (* init(uint32_t) *)
-            gf_idx (if q <=? x then x mod q else x)
-        else if sg T then                      (* init(int64_t) *)
+        if (bits T <? 64) && negb (sg T || (bits T <? 32)) then     (* init(uint32_t) *)
+          gf_idx (if q <=? x then x mod q else x)
+        else if sg T || (bits T <? 64) then    (* init(int64_t); init(int32_t) (also reached by the narrower types through promotion)
+                                                  forwards to it (repaired, fix-8) *)
           if x <? 0 then
-            let tr := cast i64 (- x) in
-            let tr := if q <=? tr then Z.rem tr q else tr in
+            let tr := cast i64 (- cast i64 (Z.rem x q)) in      (* repaired (fix-8): tr = -(tr % (int64_t)_q) *)
             if tr =? 0 then Some 0 else gf_idx (wrapu 64 (q - wrapu 64 tr))
           else gf_idx (if q <=? x then Z.rem x q else x)
         else                                   (* init(uint64_t) *)
